@@ -9,4 +9,53 @@ CONTRACTS = {
         pure='(args.heuristic == "surrogate-SGD" or args.heuristic == "surrogate-SVM" or args.heuristic == "surrogate-SGD-RP") '
              'and args.reference_model_JSON != ""',
     ),
+
+    # ---------------------------------------------------------------- C16: line parsers
+    'parse_ob_line': dict(
+        strings='opaque',
+        params={'line_string': 'str', 'delimiter': 'str', 'args': {'__class__': 'args'}},
+        returns='list[str]',
+        function_symbol='fn_parse_ob_line', function_args=['line_string', 'delimiter'],
+        ensures=[
+            # for every field list (no field contains the delimiter or a line break; any field may be empty) and every
+            # line terminator: parsing the rendered line gives exactly the fields, in order
+            ('exactly_the_fields_in_order',
+             'forall(lambda fields, terminator: implies('
+             'old(line_string) == tsv_line(fields, delimiter, terminator) and '
+             '(terminator == "\\n" or terminator == "\\r\\n" or terminator == "") and len(fields) >= 1 and '
+             'not ("\\n" in delimiter) and not ("\\r" in delimiter) and '
+             'all(not (delimiter in fields[i]) and not ("\\n" in fields[i]) and not ("\\r" in fields[i]) for i in range(len(fields))), '
+             'len(result) == len(fields) and all(result[i] == fields[i] for i in range(len(fields)))), "list[str]", "str")'),
+        ],
+    ),
+    'parse_ob_csv_line': dict(
+        strings='opaque',
+        params={'line_string': 'str', 'delimiter': 'str', 'args': {'__class__': 'args'}},
+        returns='list[str]',
+        function_symbol='fn_parse_ob_csv_line', function_args=['line_string'],
+        ensures=[('first_record_of_the_csv_reader_unmodified', 'same_seq(result, csv_parse(line_string))')],
+    ),
+    'parse_ob_line_vw': dict(
+        external=True, strings='opaque', param_names=['line_string', 'delimiter', 'args', 'fw_col_mapping', 'table_header'],
+        params={}, returns='list[str]', function_symbol='fn_parse_ob_line_vw',
+        function_args=['line_string', 'fw_col_mapping', 'table_header'], requires=[],
+    ),
+    'generic_line_parser': dict(
+        strings='opaque',
+        params={'line_string': 'str', 'delimiter': 'str', 'args': {'__class__': 'args', 'data_source': 'str'},
+                'fw_col_mapping': 'FwMap', 'table_header': 'list[str]'},
+        may_raise=['NotImplementedError'],
+        returns='list[str]',
+        call_ghosts={},
+        ensures=[
+            ('csv_sources', 'implies(args.data_source == "ob-csv" or args.data_source == "csv-raw", same_seq(result, csv_parse(line_string)))'),
+            ('tsv_source', 'implies(args.data_source == "ob-raw-dump", same_seq(result, fn_list("fn_parse_ob_line", line_string, delimiter)))'),
+            ('vw_source', 'implies(args.data_source == "ob-vw", same_seq(result, fn_list("fn_parse_ob_line_vw", line_string, fw_col_mapping, table_header)))'),
+            ('supported_only', 'args.data_source == "ob-raw-dump" or args.data_source == "ob-vw" or args.data_source == "ob-csv" '
+                               'or args.data_source == "csv-raw"'),
+        ],
+        raises_ensures={'NotImplementedError': [
+            ('only_for_unknown_sources', 'not (args.data_source == "ob-raw-dump" or args.data_source == "ob-vw" or '
+                                         'args.data_source == "ob-csv" or args.data_source == "csv-raw")')]},
+    ),
 }
